@@ -167,7 +167,14 @@ def scenarios():
             for form in ("async def ainv(self):\n    return True\n", "async def ainv():\n    return True\n",
                          # a coroutine function in the guise of a callable object, and an asynchronous generator function
                          "class ACond:\n    async def __call__(this, self):\n        return True\n\n\nainv = ACond()\n",
-                         "async def ainv(self):\n    yield True\n"):
+                         "async def ainv(self):\n    yield True\n",
+                         # ... and the same behind functools.partial (a shared parametrised condition with its parameter bound)
+                         "async def alim(self, limit):\n    return True\n\n\nainv = functools.partial(alim, limit=1)\n",
+                         "async def alim(self, limit):\n    yield True\n\n\nainv = functools.partial(alim, limit=1)\n",
+                         "class ACond:\n    async def __call__(this, self, limit):\n        return True\n\n\nainv = functools.partial(ACond(), limit=1)\n",
+                         "class ACond:\n    async def __call__(this, self, limit):\n        yield True\n\n\nainv = functools.partial(ACond(), limit=1)\n",
+                         "class ACond:\n    async def check(this, self):\n        return True\n\n\nainv = ACond().check\n",
+                         "class ACond:\n    async def check(this, self):\n        yield True\n\n\nainv = ACond().check\n"):
                 n += 1
                 name = "f{}".format(n)
                 d = form + "@icontract.invariant(ainv{})\nclass C_{}{}:\n    def m(self):\n        return HUB.body({!r}, {{}})".format(
